@@ -82,6 +82,27 @@ Theorem C14_both_loops_complete_together : forall sc rc F,
     r_phase (p_r p) = RDone OutOk /\ written_bytes (w_file (r_w (p_r p))) = F /\ s_phase (p_s p) = SDone OutOk.
 Proof. exact cosim_perfect. Qed.
 
+(** REFUTED for windows larger than the receiver's buffer (known finding D8): the property's
+    "every valid option choice (windowsize 1..65535)" does not hold once a window's burst exceeds
+    what the receiving socket buffers - the receiver keeps what fitted, ignores the rest of every
+    retransmission (which restarts at the window's first block), no ACK is ever sent, both sides
+    give up.  Witness: block size 8, window 3, six blocks, capacity 2.  With capacity 3 the same
+    transfer completes. *)
+Theorem C14_refuted_receive_capacity :
+  let sc := mk_scfg 8 3 1000000000 1 false [] in
+  let rc := mk_rcfg 8 3 1000000000 1 true [] in
+  s_phase (p_s capacity_witness) = SDone OutTimeout /\ r_phase (p_r capacity_witness) = RDone OutTimeout /\
+  recv_final_file rc (p_r capacity_witness) = None /\ pair_step_cap sc rc 2 capacity_witness = None.
+Proof. exact capacity_livelock. Qed.
+Theorem C14_capacity_sufficient_completes :
+  let sc := mk_scfg 8 3 1000000000 1 false [] in
+  let rc := mk_rcfg 8 3 1000000000 1 true [] in
+  let p := pair_run_cap sc rc 3 200 (pair_init_cap sc rc 3 (pattern_file 40)) in
+  s_phase (p_s p) = SDone OutOk /\ r_phase (p_r p) = RDone OutOk /\
+  match recv_final_file rc (p_r p) with Some w => concat (rev w) = pattern_file 40 | None => False end.
+Proof. exact capacity_sufficient. Qed.
+
+Print Assumptions C14_refuted_receive_capacity.
 Print Assumptions C14_both_loops_complete_together.
 Print Assumptions C14_interop_download.
 Print Assumptions C14_interop_upload.
